@@ -459,9 +459,9 @@ func (c *Ctx) missingMetaWrite(fn *ssa.Function, st *ssa.Store) string {
 		if !ok {
 			return false
 		}
-		g := staticCallee(call)
-		return g != nil && r.isMetaWriter(c.declared(g))
+		return c.callsMetaWriter(call)
 	}
+	_ = r
 	// scan the rest of the store's block
 	start := st.Block()
 	idx := instrIndex(st)
